@@ -185,7 +185,10 @@ def c03_reg_table(ctx, res):
               [("3001", "000", {}), ("3003", "100", {1: "fffd"}), ("3005", "010", {1: "fffd"}), ("3007", "001", {1: "fffd", 3: "0005"})]),
              (".orig x4000\nbrnzp skip\nskip st r0 cell\nreg\nld r4 cell\nreg\nnot r5 r4\nreg\nhalt\ncell .fill x0\n",
               [("4003", "000", {}), ("4005", "010", {}), ("4007", "100", {5: "ffff"})]),
-             ("lea r6 here\nhere reg\njsr f\nreg\nhalt\nf ret\n", [("3002", "001", {6: "3001"}), ("3004", "001", {6: "3001", 7: "3003"})])]
+             ("lea r6 here\nhere reg\njsr f\nreg\nhalt\nf ret\n", [("3002", "001", {6: "3001"}), ("3004", "001", {6: "3001", 7: "3003"})]),
+             # words whose low byte is a printable character and whose high byte is not zero: no characters
+             (".orig x3040\nlea r6 here\nhere reg\nld r1 v\nld r2 w\nreg\nhalt\nv .fill x0041\nw .fill x807e\n",
+              [("3042", "001", {6: "3041"}), ("3045", "100", {1: "0041", 2: "807e", 6: "3041"})])]
     for k, (src, want) in enumerate(progs):
         _write(os.path.join(d, "g%d.asm" % k), src)
         for env in ({}, {"NO_COLOR": None}, {"NO_COLOR": None, "CLICOLOR_FORCE": "1"}):
@@ -206,6 +209,19 @@ def c03_reg_table(ctx, res):
                 rr[7] = "fdff"
                 rr.update(changed)
                 exp.append((pc, cc, rr))
+            # the other columns of a row say the same number: unsigned, signed, and the character it is (x21..x7e) or none
+            rows = re.findall(r"R([0-7])\s+0x([0-9a-f]{4})\s+(\d+)\s+(-?\d+)\s+(\S+)", text)
+            # (what stands for "no character" is read off the row of xFDFF, the stack pointer nobody touched; words below
+            # x0100 that are no printable characters have names of their own, which are not looked at here)
+            blank = next((c for _, h, _, _, c in rows if h == "fdff"), None)
+            for reg, h, u, sg, ch in rows:
+                v = int(h, 16)
+                want_ch = chr(v) if 0x21 <= v <= 0x7e else blank if v >= 0x100 else ch
+                if int(u) != v or int(sg) != (v - 0x10000 if v >= 0x8000 else v) or (blank is not None and ch != want_ch):
+                    res.violate("C03/cli/reg-table", "REG table row R%s of a run in decorated mode reads 0x%s %s %s %s; the same word is %d unsigned, %d signed and %s"
+                                % (reg, h, u, sg, ch, v, v - 0x10000 if v >= 0x8000 else v, "the character %r" % chr(v) if 0x21 <= v <= 0x7e else "no printable character (%s)" % blank),
+                                dict(r.brief(), source=src, environment=env))
+                    break
             if r.rc != 0 or got != exp:
                 first = next((t for t in range(min(len(got), len(exp))) if got[t] != exp[t]), min(len(got), len(exp)))
                 res.violate("C03/cli/reg-table", "REG table #%d of a run in decorated mode shows %s; the machine holds %s (exit %s)"
@@ -571,6 +587,11 @@ def c06(ctx, res):
         else:
             if not ran:
                 res.violate("C06/loader-rejected/" + cls, "an even-length image which fits below 0x10000 was rejected (exit %s)" % r.rc, detail)
+            elif n >= 1 and data[2:] == b"\xF0\x25" * n and 0 < origin < 0xFE00 and r.rc != 0:
+                # (an image of nothing but HALT words, loaded inside user space, halts at its first word)
+                res.violate("C06/loader-rejected/" + cls, "an even-length image of %d HALT words at x%04X, which fits below 0x10000, does not run to its HALT (exit %s)" % (n, origin, r.rc), detail)
+            elif n >= 1 and data[2:] == b"\xF0\x25" * n and origin == 0 and r.rc not in (0, 0xEE):
+                res.violate("C06/loader-rejected/" + cls, "an even-length image of %d HALT words at x0000, which fits below 0x10000, was turned away (exit %s)" % (n, r.rc), detail)
             elif ix in behind:
                 res.cls("loader:runs_into_implicit_halt")
                 if r.rc != 0:
@@ -2087,6 +2108,33 @@ def c11_cli(ctx, res):
     res.require(["l2:declared_breakpoint_in_a_loop_via:stdin", "l2:declared_breakpoint_in_a_loop_via:arg", "l2:declared_breakpoint_in_a_loop_via:split"], "L2")
 
 
+# ------------------------------------------------------------------ C12 (L2: `reset` as the last command, through the real readers)
+
+def c12_cli(ctx, res):
+    """A program that counts its runs in a memory cell and prints the count. `continue` runs it to its HALT (prints 1),
+    `reset` - the last command, with or without a line end behind it, on standard input, by --command or split -
+    puts the loaded machine back, and the end of input lets it run again: it prints 1 once more ("11"), as two
+    fresh runs do; a reset that did not happen leaves it parked on the HALT ("1")."""
+    d = _dir(ctx, "c12")
+    _write(os.path.join(d, "cnt.asm"), "ld r0 c\nadd r0 r0 #1\nst r0 c\nld r1 z\nadd r0 r0 r1\nout\nhalt\nc .fill #0\nz .fill x30\n")
+    deliveries = [("stdin_without_final_newline", [], b"continue\nreset"), ("stdin", [], b"continue\nreset\n"), ("stdin_semicolons", [], b"continue;reset"),
+                  ("arg", ["--command", "continue;reset"], b""), ("arg_newline", ["--command", "continue\nreset"], b""), ("split", ["--command", "continue"], b"reset"),
+                  ("split_after_eval", ["--command", "continue;eval add r3 r3 #1"], b"reset"), ("arg_after_eval", ["--command", "continue;eval add r3, r3, #7;reset"], b""),
+                  ("stdin_crlf", [], b"continue\r\nreset\r\n"), ("arg_twice", ["--command", "continue;reset;continue;reset"], b"")]
+    for name, extra, stdin in deliveries:
+        r = lace(ctx, ["debug", "cnt.asm", "--minimal"] + extra, stdin=stdin, cwd=d, timeout=30)
+        res.evaluations += 1
+        res.cls("l2:reset_as_last_command:" + name)
+        body = program_output(r.out)[0].strip()
+        want = b"111" if name == "arg_twice" else b"11"
+        if r.rc is None or r.crashed:
+            res.violate("C12/cli/crash", "`lace debug` crashed or hung (exit %s)" % r.rc, dict(r.brief(), delivery=name))
+        elif r.rc != 0 or body != want:
+            res.violate("C12/cli/reset-not-carried-out", "a program that prints how often it has run: `continue`, `reset` (delivered as %s), end of input prints %r (exit %s); after a reset it runs like a fresh run and prints %r"
+                        % (name, body[:20], r.rc, want), dict(r.brief(), delivery=name, standard_input=repr(stdin), arguments=extra))
+    res.require(["l2:reset_as_last_command:stdin_without_final_newline", "l2:reset_as_last_command:arg", "l2:reset_as_last_command:split"], "L2")
+
+
 # ------------------------------------------------------------------ C15 (L2: eval through both readers)
 
 def c15_cli(ctx, res):
@@ -2792,6 +2840,16 @@ def c18_cli(ctx, res):
             elif "stack" not in text.replace("regs.asm", ""):
                 res.violate("C18/cli/diagnostic-does-not-name-feature", "`eval %s` without the flag is refused without naming the `stack` feature%s" % (mn, " (--minimal)" if mode else ""),
                             {"run": r.brief()})
+    # `step out` inside a routine that holds a CALL to the very next statement (offset 0, the "where am I" idiom): the
+    # routine ends at its RETS, not behind that CALL
+    _write(os.path.join(d, "so.asm"), "call sub\nhalt\nsub add r1 r1 #1\ncall n1\nn1 pop r2\nadd r1 r1 #2\nrets\n")
+    r = lace(ctx, ["debug", "so.asm", "--minimal", "-f", "stack", "--command", "step into 2;step out;registers;exit"], cwd=d, stdin=b"")
+    res.evaluations += 1
+    res.cls("l2:step_out_over_a_call_to_the_next_statement")
+    got = dict(re.findall(r"^(R1|R2|PC) (x[0-9a-f]{4})", r.err.decode("utf-8", "replace"), re.M))
+    if r.rc != 0 or got != {"R1": "x0003", "R2": "x3004", "PC": "x3001"}:
+        res.violate("C18/cli/flag-on-not-honoured/step-out", "with `-f stack`, `step into 2;step out` in a routine holding `call n1 / n1 pop r2` pauses with %s (exit %s); the routine's RETS returns to x3001 with R1 = 3"
+                    % (got, r.rc), {"run": r.brief()})
     # the flag's value is a list: every spelling of it that the command line takes (empty entries before or behind the
     # name) switches the extension on
     _write(os.path.join(d, "fs.asm"), "and r0 r0 #0\nadd r0 r0 #5\npush r0\npop r1\nadd r0 r1 #1\nputn\nhalt\n")
